@@ -133,12 +133,99 @@ def build(run):
                "precondition of is_repetitive: the optional-word marker U+F8FD occurs 0 or 2 times in the candidate string (documented: 'OPTIONAL_INDICATOR surrounds the optional text')")
     crate_o, lemmas_o = ordinal_lemmas(run)
     run.kani(crate_o, lemmas_o, timeout=300)
+    crate_i, lemma_i = insert_lemma(run)
+    run.kani(crate_i, [lemma_i], timeout=600)
     run.kani(c, [dict(id="K-C04-a.optional_word_deletion", harness="optional_word_deletion_loses_nothing",
                       covers=["deletion branch reachable", "kept branch with markers reachable"], role=role,
                       exclusions={"marker-not-at-start": "MARKER_NOT_AT_START"},
                       api=lambda v, o: api_marker_in_middle() if role(v, o) == "marker-not-at-start" else (True, "no API recipe for this role"),
                       claim="Some(r) => optional = blanks* MARK word MARK blanks* ++ r, word a suffix of prev.trim_end()")],
              timeout=300 if run.tier == "quick" else 1500)
+
+
+# ======================================================================================================================
+# K-C04-e: `insert:` (InsertChildren::replace, the default rule of every mrow) speaks EVERY selected child: the expanded replacement
+#          array selects child 1..n, each once, in order, with the separator replacements between them
+INS_SHIM = r"""
+pub type Result<T> = core::result::Result<T, Error>;
+#[derive(Debug)] pub struct Error;
+macro_rules! bail { ($($t:tt)*) => { return Err(Error) }; }
+/// format! replaced by a recorder of its LAST integer argument (the child index of "xpath[i]"); the text is not the subject
+pub struct Fmt { idx: usize }
+pub trait AsIdx { fn as_idx(&self) -> usize; }
+impl AsIdx for usize { fn as_idx(&self) -> usize { *self } }
+impl AsIdx for i32 { fn as_idx(&self) -> usize { *self as usize } }
+impl AsIdx for &str { fn as_idx(&self) -> usize { 0 } }
+impl AsIdx for String { fn as_idx(&self) -> usize { 0 } }
+macro_rules! format { ($f:literal $(, $a:expr)*) => {{ #[allow(unused_mut, unused_assignments)] let mut idx = 0usize; $( idx = AsIdx::as_idx(&$a); )* Fmt { idx } }}; }
+pub struct MyXPath { idx: usize }
+impl MyXPath { pub fn new(f: Fmt) -> Result<MyXPath> { Ok(MyXPath { idx: f.idx }) } }
+pub enum Replacement { XPath(MyXPath), Sep }
+/// stand-in for Vec<Replacement>: checks the order of what is put into it instead of storing it
+pub struct Rec { n_x: usize, n_sep: usize, good: bool, seps: usize }
+pub struct Vec;
+impl Vec { pub fn with_capacity(_n: usize) -> Rec { Rec { n_x: 0, n_sep: 0, good: true, seps: 0 } } }
+impl Rec {
+    pub fn len(&self) -> usize { self.seps }
+    pub fn push(&mut self, r: Replacement) { if let Replacement::XPath(x) = r { self.good = self.good && x.idx == self.n_x + 1 && self.n_sep == self.n_x; self.n_x += 1; } else { self.good = false; } }
+    pub fn extend_from_slice(&mut self, _s: &Rec) { self.good = self.good && self.n_sep + 1 == self.n_x; self.n_sep += 1; }
+}
+pub struct ReplacementArray { replacements: Rec }
+static mut FINAL: (usize, usize, bool) = (0, 0, false);
+impl ReplacementArray { pub fn replace(&self, _r: &mut Ctx, _m: El) -> Result<u8> { unsafe { FINAL = (self.replacements.n_x, self.replacements.n_sep, self.replacements.good); } Ok(0) } }
+pub struct Rc0 { string: &'static str }
+pub struct XP { rc: Rc0 }
+pub struct InsertChildren { xpath: XP, replacements: ReplacementArray }
+pub struct Ctx;
+#[derive(Clone, Copy)] pub struct El;
+#[derive(Clone, Copy)] pub struct Nodeset { n: usize }
+impl Nodeset { pub fn size(&self) -> usize { self.n } pub fn document_order(&self) -> Nodeset { *self } pub fn len(&self) -> usize { self.n } }
+impl InsertChildren {
+    #[allow(unused_mut)]
+    fn nodeset_arm(&self, rules_with_context: &mut Ctx, mathml: El, nodes: Nodeset) -> Result<u8> ARM_BLOCK
+}
+HARNESS(insert_selects_every_child, UNW) {
+    let n = sym::usize();
+    sym::assume(n <= NMAX);
+    let ins = InsertChildren { xpath: XP { rc: Rc0 { string: "*" } }, replacements: ReplacementArray { replacements: Rec { n_x: 0, n_sep: 0, good: true, seps: 1 } } };
+    let r = ins.nodeset_arm(&mut Ctx, El, Nodeset { n });
+    cover!(r.is_ok() && n == NMAX, "largest row reachable");
+    cover!(r.is_err(), "empty node set reachable");
+    match r {
+        Err(_) => assert!(n == 0, "insert: fails although children were selected"),
+        Ok(_) => { let (n_x, n_sep, good) = unsafe { FINAL };
+                   assert!(n_x == n, "insert: does not select every child of the node set: operands beyond some position are never spoken");
+                   assert!(good && n_sep + 1 == n, "insert: children are not selected as 1..n in order with the separators between them"); }
+    }
+}
+"""
+
+
+def api_insert(vals=None, out=None):
+    terms = list(range(101, 171))
+    expr = "<math>" + "<mo>+</mo>".join("<mn>%d</mn>" % t for t in terms) + "</math>"
+    res = mcprobe([("mathml", expr), "speech"])
+    sp = res[-1][1] if res[-1][0] == "OK" else ""
+    missing = [t for t in terms if str(t) not in sp]
+    return bool(missing) or res[-1][0] != "OK", {"script": "speech of 101+102+...+170 (one mrow with 139 children) must contain every term", "missing": missing[:10], "status": res[-1][0]}
+
+
+def insert_lemma(run):
+    sp = slicer.Source.get("src/speech.rs")
+    f = sp.find("impl InsertChildren", "fn replace")
+    arm = sp.find_bracketed("Value :: Nodeset ( nodes ) => {", within=f)[0]
+    block = arm.text[arm.text.index("{"):]
+    run.uses(slicer.Span(sp, arm.start, arm.end, "speech.rs::InsertChildren::replace::Nodeset arm"))
+    nmax = 72 if run.tier == "quick" else 300
+    consts = slicer.referenced_consts(sp, block, INS_SHIM)      # a size the arm starts to take from a named constant is followed
+    run.uses(*consts)
+    crate = kani_run.Crate("c04ins", "\n".join(c.text for c in consts) + INS_SHIM.replace("ARM_BLOCK", block).replace("NMAX", str(nmax)).replace("UNW", str(nmax + 2)))
+    run.bound("K-C04-e", "the Nodeset arm of InsertChildren::replace verbatim, every node-set size 0..%d (unwind %d with unwinding assertions)" % (nmax, nmax + 2))
+    run.assume("K-C04-e: sxd_xpath Nodeset reduced to its size; Vec<Replacement> replaced by a recorder that checks the order of what is pushed; format! by a recorder of the child index; MyXPath::new succeeds; ReplacementArray::replace (the rule interpreter) is not run")
+    return crate, dict(id="K-C04-e.insert_selects_every_child", harness="insert_selects_every_child", api=lambda v, o: api_insert(),
+                       role=lambda v, o: "children-not-all-selected" if "does not select every child" in o else "insert-order",
+                       covers=["largest row reachable", "empty node set reachable"], timeout=600,
+                       claim="for a node set of n children the expanded array is xpath[1] (sep xpath[i])_{i=2..n}: every child is spoken once, in order")
 
 
 # ======================================================================================================================
